@@ -169,7 +169,7 @@ func (w *rpWalk) msg(m protoreflect.Message, depth int, path string) {
 func engineRapidp(rep *Report) {
 	openProgress()
 	subs := subjectsForShard()
-	n := perType(3, 300)
+	n := perType(3, 40)
 	only := onlyIndex()
 	skip := map[string]bool{}
 	if sk, ok := parseArg("skip"); ok {
